@@ -179,6 +179,14 @@ def run(ctx: common.Ctx):
                                  variations=['sect', 'addvar']))
     judge(ctx, res, 'special-codons')
     s2b = dict(ctx.coverage['worker_stats'])
+    # Sec termination switched on for selenoproteins whose Sec sits a few codons behind the
+    # start codon (planted, with a cleavage site between them) and records clustered around it
+    res = cv_checks.explore(ctx, ctx.n(260, 4000),
+                            dict(base, per_tx=(1, 4), as_frac=0.0, special=['sec'], sec_near_start=1.0,
+                                 coding_only=True, kw={'selenocysteine_termination': False},
+                                 variations=['sect']))
+    judge(ctx, res, 'sec-near-start')
+    s2c = dict(ctx.coverage['worker_stats'])
     # adding a GVF FILE: fusion + circRNA of the donor + small records in three files; the run
     # without the fusion file (without the circRNA file) must be contained in the full run
     bres = cv_checks.explore_backbone(ctx, 'combo', ctx.n(70, 1200), dict(exception=None))
@@ -211,7 +219,7 @@ def run(ctx: common.Ctx):
                           {'seed': r['seed']})
         for what, d in r['violations'][:2]:
             ctx.add_violation(what, d)
-    ctx.coverage['worker_stats'] = {'config-pairs': s1, 'config-pairs-exc': s2, 'special-codons': s2b,
+    ctx.coverage['worker_stats'] = {'config-pairs': s1, 'config-pairs-exc': s2, 'special-codons': s2b, 'sec-near-start': s2c,
                                     'restrictive-switches': s3}
     shutil.rmtree(gen_ref.WORK, ignore_errors=True)
     ctx.assumptions += [
